@@ -121,7 +121,11 @@ def gen_helper(r, dtype, hid, names, alphabet=None):
         kw["ddof"] = 1
     name = "y%d" % len(names)
     names.append(name)
-    return {"name": name, "fn": fn, "col": "x", "kwargs": kw, "id": hid}
+    h = {"name": name, "fn": fn, "col": "x", "kwargs": kw, "id": hid, "dtype": dtype}
+    if fn == "count" and r.random() < 0.4:
+        h["col"] = None             # di.count(): row count through the internal group column
+        h["kwargs"] = {}
+    return h
 
 
 def gen_call(r, cfg, hid_counter, pool):
@@ -133,14 +137,29 @@ def gen_call(r, cfg, hid_counter, pool):
     call = {"ev": "call", "g": groups,
             "cols": {"x": {"dtype": dtype, "values": gen_values(r, dtype, n, groups, na_mode)}},
             "helpers": [], "dtype": dtype, "na_mode": na_mode}
+    dtype2 = None
+    if r.random() < cfg.get("two_columns", 0):
+        # a second value column of another type: kernels for two signatures are first used
+        # inside one aggregate() call
+        dtype2 = r.choice(cfg["dtypes"])
+        call["cols"]["z"] = {"dtype": dtype2,
+                             "values": gen_values(r, dtype2, n, groups, r.choice(["none", "some", "group"]))}
     names = []
     for _ in range(r.choice(cfg["helpers_per_call"])):
+        if dtype2 is not None and r.random() < 0.5:
+            hid_counter[0] += 1
+            h = gen_helper(r, dtype2, hid_counter[0], names, cfg.get("helper_alphabet"))
+            if h["col"] is not None:
+                h["col"] = "z"
+            call["helpers"].append(h)
+            continue
         if pool and r.random() < cfg["reuse_rate"]:
             # reuse an earlier helper *object* on a frame of possibly another dtype
             old = r.choice(pool)
             ok = old["fn"] in (HELPERS_DT if dtype.startswith("datetime") else HELPERS_ALL)
             if ok:
                 h = dict(old)
+                h["dtype"] = dtype
                 h["name"] = "y%d" % len(names)
                 names.append(h["name"])
                 h["reuse"] = True
@@ -164,6 +183,7 @@ def gen_world(rng, tier):
         "dtypes": dtypes,
         "helpers_per_call": r.choice([[1], [1, 2], [1, 2, 3], [2, 3]]),
         "reuse_rate": r.choice([0, 0, 0.3]),
+        "two_columns": r.choice([0, 0, 0.5]),
         "toggle_rate": r.choice([0, 0, 0.15]),
         "nlifetimes": r.choice([1, 2, 2, 3]),
         "fault_world": r.random() < 0.55,
@@ -338,6 +358,7 @@ def compare(call, rec, lifetime_faulty, world_faulty):
         kw = h.get("kwargs", {}) if h else {}
         dn = kw.get("drop_na", "default")
         a, b = rf[name], af[name]
+        dtype = (h or {}).get("dtype") or call["dtype"]
         where = f"{fn}|{dtype}|drop_na={dn}"
         if a["dtype"] != b["dtype"]:
             same_vals = len(a["values"]) == len(b["values"]) and all(
@@ -362,12 +383,12 @@ def compare(call, rec, lifetime_faulty, world_faulty):
         na_b = [v in ("NaN", "NaT", None) for v in b["values"]]
         if na_a != na_b:
             out.append((f"C08.na|{where}", f"{fn}({dtype}, {kw}) missing positions differ: Python "
-                        f"{a['values']} vs Numba {b['values']}; x={call['cols']['x']['values']} "
+                        f"{a['values']} vs Numba {b['values']}; x={call['cols'][(h or {}).get('col') or 'x']['values']} "
                         f"g={call['g']}"))
             continue
         if not all(close(x, y) for x, y in zip(a["values"], b["values"])):
             out.append((f"C08.values|{where}", f"{fn}({dtype}, {kw}) values differ: Python "
-                        f"{a['values']} vs Numba {b['values']}; x={call['cols']['x']['values']} "
+                        f"{a['values']} vs Numba {b['values']}; x={call['cols'][(h or {}).get('col') or 'x']['values']} "
                         f"g={call['g']}"))
     return out
 
@@ -479,7 +500,7 @@ def execute(trace, prop="C08"):
                     for h in call["helpers"]:
                         if h["fn"] in ("std", "var") and h.get("kwargs", {}).get("ddof"):
                             continue
-                        ks = (KERNEL[h["fn"]], call["dtype"])
+                        ks = (KERNEL[h["fn"]], h.get("dtype") or call["dtype"])
                         if ks not in seen_this_life:
                             for prev in seen_this_life:
                                 first_use_pairs.add((prev, ks))
